@@ -63,7 +63,7 @@ func main() {
 			if err != nil {
 				return err
 			}
-			if !bytes.Contains(src, []byte("Lock()")) {
+			if !bytes.Contains(src, []byte("Lock()")) && !bytes.Contains(src, []byte("sync.Map")) && !bytes.Contains(src, []byte("atomic.")) {
 				return nil
 			}
 			rel, _ := filepath.Rel(*root, p)
@@ -141,7 +141,7 @@ func rewrite(path, rel string, src []byte) ([]byte, int, error) {
 	n := 0
 	ast.Inspect(f, func(nd ast.Node) bool {
 		call, ok := nd.(*ast.CallExpr)
-		if !ok || len(call.Args) != 0 {
+		if !ok {
 			return true
 		}
 		sel, ok := call.Fun.(*ast.SelectorExpr)
@@ -149,6 +149,27 @@ func rewrite(path, rel string, src []byte) ([]byte, int, error) {
 			return true
 		}
 		if id, ok := sel.X.(*ast.Ident); ok && pkgNames[id.Name] && id.Obj == nil {
+			return true
+		}
+		// operations on lock-free shared state (sync.Map, sync/atomic values): a
+		// scheduling point in front of each, so that the steps of a non-atomic update
+		// can be interleaved with readers. X.Load(k) becomes
+		// verifsimlock.Y("site", X.Load)(k); Y yields (when a scheduler is installed)
+		// and returns the method value it was given.
+		switch sel.Sel.Name {
+		case "Load", "Store", "LoadOrStore", "LoadAndDelete", "Delete", "Range", "Swap", "CompareAndSwap", "CompareAndDelete", "Clear":
+			if len(call.Args) == 0 && sel.Sel.Name != "Load" && sel.Sel.Name != "Clear" {
+				return true
+			}
+			site := fmt.Sprintf("%s:%d:%s", rel, fset.Position(call.Pos()).Line, sel.Sel.Name)
+			call.Fun = &ast.CallExpr{
+				Fun:  &ast.SelectorExpr{X: ast.NewIdent("verifsimlock"), Sel: ast.NewIdent("Y")},
+				Args: []ast.Expr{&ast.BasicLit{Kind: token.STRING, Value: strconv.Quote(site)}, &ast.SelectorExpr{X: sel.X, Sel: ast.NewIdent(sel.Sel.Name)}},
+			}
+			n++
+			return true
+		}
+		if len(call.Args) != 0 {
 			return true
 		}
 		var try, fn string
